@@ -36,6 +36,10 @@ type C08Session struct {
 	// with (c08Plans): mutations of one header field then meet bases that are
 	// exact multiples of the block length, single blocks, short strong sums...
 	Plan int `json:"plan,omitempty"`
+	// Linger: when the hostile peer ends up waiting for bytes that will never
+	// come it does NOT close its connection: it lingers, stalled, while the
+	// following sessions (the canonical request first of all) are served.
+	Linger bool `json:"linger,omitempty"`
 }
 
 // (basis length, block length, strong checksum length)
@@ -176,6 +180,7 @@ func (c08) Generate(seed uint64, tier string, index int) any {
 			default:
 				s = C08Session{Kind: "noise", Noise: g.R.Uint64() >> 1, NoiseN: 1 + g.R.Intn(3000), Stage: g.R.Intn(5), Module: []string{"ro", "rw"}[g.R.Intn(2)]}
 			}
+			s.Linger = g.R.Intn(4) == 0
 		} else {
 			switch g.R.Intn(6) {
 			case 5:
@@ -262,7 +267,7 @@ func c08Daemon(t *testing.T, sc *C08Scenario, job *Job, res *Result) {
 	}
 	os.MkdirAll(rw, 0755)
 	entries, data := c08Entries()
-	var fired, canonicalOK, hangs, gaveUp int
+	var fired, canonicalOK, hangs, gaveUp, lingered int
 	var failure string
 	defer func() {
 		if r := recover(); r != nil {
@@ -282,6 +287,8 @@ func c08Daemon(t *testing.T, sc *C08Scenario, job *Job, res *Result) {
 		}
 		ln := sim.Listen("10.9.9.9:873")
 		go srv.Serve(ctx, ln)
+		var lingering []*kernel.End
+		lingerNext := false
 		runParty := func(name string, fn func(w *refproto.Wire, end *kernel.End) error, cut int64) (kernel.Outcome, error) {
 			end := ln.Dial("203.0.113.5:4000", sc.Tr.CapCS, sc.Tr.CapSC)
 			if cut > 0 {
@@ -294,6 +301,12 @@ func c08Daemon(t *testing.T, sc *C08Scenario, job *Job, res *Result) {
 				return err
 			}, end)
 			out := sim.Run()
+			if out == kernel.Deadlock && !p.Done() && lingerNext {
+				// the hostile peer stays connected, stalled: everybody else must
+				// still be served (its own handler may wait as long as it likes)
+				lingering = append(lingering, end)
+				return kernel.Finished, nil
+			}
 			if out == kernel.Deadlock && !p.Done() {
 				// the hostile peer is itself waiting for bytes that will never
 				// come: it gives up and closes (stalled peers are outside the
@@ -301,6 +314,9 @@ func c08Daemon(t *testing.T, sc *C08Scenario, job *Job, res *Result) {
 				gaveUp++
 				end.Close()
 				out = sim.Run()
+			}
+			if out == kernel.Deadlock && p.Done() && len(lingering) > 0 {
+				out = kernel.Finished // only the lingering peers' sessions are left
 			}
 			return out, p.Err()
 		}
@@ -316,6 +332,7 @@ func c08Daemon(t *testing.T, sc *C08Scenario, job *Job, res *Result) {
 				mod = "ro"
 			}
 			var out kernel.Outcome
+			lingerNext = s.Linger
 			switch s.Kind {
 			case "pull-mut", "cut-pull":
 				out, _ = runParty("hostile", func(w *refproto.Wire, end *kernel.End) error {
@@ -392,6 +409,7 @@ func c08Daemon(t *testing.T, sc *C08Scenario, job *Job, res *Result) {
 				break
 			}
 			// after every hostile session: a canonical valid request must be served correctly
+			lingerNext = false
 			var pr *refproto.PullResult
 			cout, cerr := runParty("canonical", func(w *refproto.Wire, end *kernel.End) error {
 				var err error
@@ -417,6 +435,15 @@ func c08Daemon(t *testing.T, sc *C08Scenario, job *Job, res *Result) {
 			}
 			canonicalOK++
 		}
+		lingered = len(lingering)
+		for _, e := range lingering {
+			e.Close()
+		}
+		if len(lingering) > 0 && res.Violation == nil {
+			if out := sim.Run(); out == kernel.Deadlock {
+				res.Violate("handler-stuck", "handler-stuck:after-linger", "the lingering hostile peers have closed their connections but a handler is still blocked: "+sim.PendingSummary())
+			}
+		}
 		res.Steps += sim.Stats.Steps
 		res.Bytes += sim.Stats.Bytes
 		res.Shapes = append(res.Shapes, sim.Shape())
@@ -435,6 +462,7 @@ func c08Daemon(t *testing.T, sc *C08Scenario, job *Job, res *Result) {
 	res.Fault("field_mutation", fired)
 	res.Probe("hostile_sessions", len(sc.Sessions))
 	res.Probe("canonical_sessions_ok", canonicalOK)
+	res.Probe("lingering_stalled_peers", lingered)
 	res.Probe("hostile_peer_gave_up_waiting", gaveUp)
 	for _, s := range sc.Sessions {
 		res.Probe("kind_"+s.Kind, 1)
